@@ -1,7 +1,12 @@
-// Package faketime stands in for "time" in the rewritten copies of the repository's files.
+// Package faketime stands in for "time" in the import-rewritten copies of the repository's
+// files: a harness-controlled clock. Symbolically the readings are arbitrary instants chosen by
+// the harness; Sleep blocks until the harness has advanced the clock far enough.
 package faketime
 
-import realtime "time"
+import (
+	realtime "time"
+	"sync/atomic"
+)
 
 type Duration = realtime.Duration
 
@@ -19,21 +24,28 @@ type Time struct{ ns int64 }
 
 var clock int64 = 1_000_000_000_000
 
-func SetClock(ns int64)   { clock = ns }
-func Advance(d Duration)  { clock += int64(d) }
-func Now() Time           { return Time{ns: clock} }
-func Unix(sec, nsec int64) Time { return Time{ns: sec*1e9 + nsec} }
-func Since(t Time) Duration { return Duration(clock - t.ns) }
-func Until(t Time) Duration { return Duration(t.ns - clock) }
-func Sleep(d Duration)    { sleepHook(d) }
+func SetClock(ns int64)     { atomic.StoreInt64(&clock, ns) }
+func Advance(d Duration)    { atomic.AddInt64(&clock, int64(d)) }
+func Clock() int64          { return atomic.LoadInt64(&clock) }
+func Now() Time             { return Time{ns: atomic.LoadInt64(&clock)} }
+func Unix(sec, nsec int64) Time { return Time{ns: sec*1000000000 + nsec} }
+func Since(t Time) Duration { return Duration(atomic.LoadInt64(&clock) - t.ns) }
+func Until(t Time) Duration { return Duration(t.ns - atomic.LoadInt64(&clock)) }
 
-var sleepHook = func(d Duration) { clock += int64(d) }
+// Sleep blocks until the clock has been advanced by at least d (symgo intercepts this call;
+// natively it polls the fake clock).
+func Sleep(d Duration) {
+	wake := atomic.LoadInt64(&clock) + int64(d)
+	for atomic.LoadInt64(&clock) < wake {
+		realtime.Sleep(50 * realtime.Microsecond)
+	}
+}
 
-func (t Time) Add(d Duration) Time  { return Time{ns: t.ns + int64(d)} }
-func (t Time) Sub(u Time) Duration  { return Duration(t.ns - u.ns) }
-func (t Time) After(u Time) bool    { return t.ns > u.ns }
-func (t Time) Before(u Time) bool   { return t.ns < u.ns }
-func (t Time) Equal(u Time) bool    { return t.ns == u.ns }
+func (t Time) Add(d Duration) Time { return Time{ns: t.ns + int64(d)} }
+func (t Time) Sub(u Time) Duration { return Duration(t.ns - u.ns) }
+func (t Time) After(u Time) bool   { return t.ns > u.ns }
+func (t Time) Before(u Time) bool  { return t.ns < u.ns }
+func (t Time) Equal(u Time) bool   { return t.ns == u.ns }
 func (t Time) Compare(u Time) int {
 	switch {
 	case t.ns < u.ns:
@@ -44,6 +56,7 @@ func (t Time) Compare(u Time) int {
 	return 0
 }
 func (t Time) IsZero() bool     { return t.ns == 0 }
-func (t Time) Unix() int64      { return t.ns / 1e9 }
-func (t Time) UnixMilli() int64 { return t.ns / 1e6 }
+func (t Time) Unix() int64      { return t.ns / 1000000000 }
+func (t Time) UnixMilli() int64 { return t.ns / 1000000 }
 func (t Time) UnixNano() int64  { return t.ns }
+func (t Time) String() string   { return "<fake instant>" }
